@@ -521,7 +521,7 @@ class Tr:
             if set(given) != set(params):
                 raise Unsupported("recursive call arguments")
             return ind + self.spec["recursive"][2] + (" " + self.spec["thread"] if self.spec.get("thread") else "") + " " + " ".join(self.e(given[p_]) for p_ in params)
-        if self.spec.get("stop_src") and self.spec["stop_src"][0] in ast.unparse(s):
+        if self.spec.get("stop_src") and any(x in ast.unparse(s) for x in ([self.spec["stop_src"][0]] if isinstance(self.spec["stop_src"][0], str) else self.spec["stop_src"][0])):
             return ind + self.ret(ast.parse(self.spec["stop_src"][1], mode="eval").body)
         stop = self.spec.get("stop_at")
         if stop and isinstance(s, stop[0]):
@@ -1037,7 +1037,7 @@ SPECS = [
          rename={"self.strip_prefix": "strip_prefix", "self.prefix": "pre", "self.upstream": "upstream", "request.path": "path0", "request.query": "query"},
          types={"self.prefix": "str", "self.upstream": "str", "request.path": "str", "request.query": "str", "path": "str", "remaining": "str", "upstream_url": "str",
                 "self.strip_prefix": "bool", "prefix_ends_with_slash": "bool", "is_valid_match": "bool"},
-         stop_at=(ast.Try, "upstream_url")),
+         stop_at=(ast.Try, "upstream_url"), stop_src=(("self._client.get(", "(upstream_url)"), "upstream_url")),
     dict(name="canonicalPath", file="utils/url.py", cls=None, func="canonical_path", str="nat",
          header="def canonicalPath (decoded : List Nat) (parts : List (List Nat)) : List Nat :=",
          opaque={"unquote(path)": "decoded", "decoded.split('/')": "parts"},
